@@ -8,6 +8,7 @@
 import LW.Proofs.FrameRT
 import LW.Proofs.Stream
 import LW.Proofs.JoinAcceptRT
+import LW.Proofs.Base64
 namespace LW.C01
 open LW Outcome
 
@@ -28,6 +29,16 @@ theorem C01_valid_roundtrip (f : PHY) (hv : Spec.frameValid f = true) : ∃ bs, 
   have hs : Spec.shapeOK f = true := by
     simp only [Spec.frameValid, Bool.and_eq_true] at hv; exact hv.1
   exact ⟨bs, h, C01_roundtrip f bs h hs⟩
+
+/-- the text form: `MarshalText` = base64 (StdEncoding) of `MarshalBinary`, `UnmarshalText` = `UnmarshalBinary` of the
+decoded text (driver ops `phytextenc` / `phytextdec`).  For every spec-valid frame the text exists and decodes to the
+original frame; the base64 layer is lossless for every byte string. -/
+theorem C01_text_roundtrip (f : PHY) (hv : Spec.frameValid f = true) :
+    ∃ bs, f.enc = ok bs ∧ (Base64.decode (Base64.encode bs)).map PHY.dec = some (ok (Spec.wire f)) := by
+  obtain ⟨bs, h, hd⟩ := C01_valid_roundtrip f hv
+  exact ⟨bs, h, by rw [Base64.decode_encode]; simp [hd]⟩
+
+theorem C01_base64 (bs : Bytes) : Base64.decode (Base64.encode bs) = some bs := Base64.decode_encode bs
 
 /-- "compared as the MAC commands they carry": the opaque FOpts / port-0 FRMPayload bytes of the decoded frame decode
 (C07 stream theorem, any registry) into exactly the commands the sender put in. -/
